@@ -59,6 +59,7 @@ func ZzC04Frames() {
 	}
 	zzInputsUnmodified()
 	zzCover("done", true)
+	zzAssertMustFail(chs[0] == chs[1], "twin: both frames travel on the same channel")
 }
 
 // C04 (limits): readBytesLimited never consumes more than n bytes, returns
